@@ -467,13 +467,16 @@ class Client(ClientLike):
         Args:
             msg_list (Iterable[int]): A list of numeric message IDs to subscribe to
         """
-        msg_list = list(msg_list)  # cast arbitrary iterable to list
+        # build a filtered copy (removing from a list while iterating over it skips entries)
+        sub_list = []
         for mt in msg_list:
             if mt in self.subscribed_types:
                 warn(
                     f"Message ID {mt} is already subscribed, ignored from subscription_context"
                 )
-                msg_list.remove(mt)
+            elif mt not in sub_list:
+                sub_list.append(mt)
+        msg_list = sub_list
 
         self.subscribe(msg_list)
         yield
@@ -489,13 +492,16 @@ class Client(ClientLike):
             msg_list (Iterable[int]): A list of numeric message IDs to temporarily unsubscribe to
         """
 
-        msg_list = list(msg_list)  # cast arbitrary iterable to list
+        # build a filtered copy (removing from a list while iterating over it skips entries)
+        pause_list = []
         for mt in msg_list:
             if mt not in self.subscribed_types:
                 warn(
                     f"Message ID {mt} is not subscribed, ignored from paused_subscription_context"
                 )
-                msg_list.remove(mt)
+            elif mt not in pause_list:
+                pause_list.append(mt)
+        msg_list = pause_list
 
         self.pause_subscription(msg_list)
         yield
